@@ -32,6 +32,9 @@ def check(ctx, report):
         spec = json.load(f)['ja3']
     report.rule('C15.R1', 'sections, order, joins, decimal rendering, GREASE filter in every list section')
     report.rule('C15.R2', 'attributes consumed by compose for the cipher list are consumed by the cipher section')
+    report.rule('C15.R3', 'the values ignored as GREASE are exactly the RFC 8701 values')
+    from .c10 import grease_classification
+    grease_classification(ctx, report, 'C15.R3')
     c = model.cls('TlsHandshakeClientHello')
     f = c.methods.get('ja3')
     if f is None:
